@@ -66,9 +66,12 @@ def serial(na: int, nb: int, reps: int, mx: int, stop: int) -> bool:
     hx.begin()
     sel = hx.P['collectors']
     BM.built, BM.bad = [], None
-    params = {"a": list(range(na)), "b": list(range(nb)), "stop": stop}
+    avals = list(range(na))
+    if hx.P.get('repeated'):               # a grid axis may list the same value twice: still one execution per listed value
+        avals = [0] * na
+    params = {"a": avals, "b": list(range(nb)), "stop": stop}
     res = B.batch_run(BM, params, collectors=sel, processes=1, max_timesteps=mx, repetitions=reps)
-    runs = _expected_runs(na, nb, reps)
+    runs = [(a, b) for _ in range(reps) for a in avals for b in range(nb)]
     steps = stop if stop < mx else mx        # at timestep `stop` the stopper (priority 5) completes before collectors run
     if len(runs) >= 3:
         hx.reach('three_runs')
@@ -206,7 +209,8 @@ def obligations(tier):
     R, T = (2, 3) if tier == "quick" else (3, 4)
     shapes = [(1, 1, 1), (2, 1, 1), (1, 2, 2), (2, 2, 1)] if tier == "quick" else [(1, 1, 1), (2, 1, 1), (1, 2, 2), (2, 2, 1), (2, 1, 3), (1, 1, 5)]
     return [
-        X("serial", serial, parts=[{"collectors": c, "R": R, "T": T} for c in ("c", ["c", "d"], None)],
+        X("serial", serial, parts=[{"collectors": c, "R": R, "T": T} for c in ("c", ["c", "d"], None)] +
+          [{"collectors": "c", "R": 1, "T": 2, "repeated": True}],
           labels=("three_runs", "completes_before_limit", "limit_before_completion"), timeout=1200, encoded=enc),
         X("parallel_any_order", parallel_any_order,
           parts=[{"na": a, "nb": b, "reps": r, "procs": p} for (a, b, r) in shapes for p in (2,)] + [{"na": 2, "nb": 1, "reps": 1, "procs": 16}],
